@@ -94,3 +94,65 @@ func VerifC10NodeStop() {
 	lib.VerifAssert(fa.terms == 1 && app.state == int32(gen.ApplicationStateLoaded), "the application is stopped exactly once")
 	lib.VerifReach("node stopped")
 }
+
+// vfOwner is an owner (what a pool is to its workers) whose ProcessInit starts `want` LinkParent
+// children with the real process.Spawn and then, optionally, fails.
+type vfOwner struct {
+	want  int
+	fail  error
+	kids  []*vfMember
+	pids  []gen.PID
+	terms int
+}
+
+func (o *vfOwner) ProcessInit(process gen.Process, args ...any) error {
+	for i := 0; i < o.want; i++ {
+		m := &vfMember{}
+		pid, err := process.Spawn(func() gen.ProcessBehavior { return m }, gen.ProcessOptions{LinkParent: true})
+		if err != nil {
+			return err
+		}
+		o.kids = append(o.kids, m)
+		o.pids = append(o.pids, pid)
+	}
+	return o.fail
+}
+func (o *vfOwner) ProcessRun() error               { return nil }
+func (o *vfOwner) ProcessTerminate(reason error) { o.terms++ }
+
+// VerifC10InitFailure: an owner starts 0..N LinkParent children during its own start-up (as act.Pool
+// does with its workers) and then fails to start. The owner never existed for the rest of the node,
+// so nothing it started may keep running: every child gets the owner's exit and (being well-behaved)
+// terminates exactly once; when the owner starts successfully the children stay.
+func VerifC10InitFailure() {
+	lib.VerifClockAdvance(0)
+	n := vfNode()
+	o := &vfOwner{want: lib.VerifPick("children", lib.VerifParam("children", 2)+1)}
+	fails := lib.VerifPick("fails", 2) == 1
+	if fails {
+		o.fail = errVfReason
+	}
+	_, err := n.spawn(func() gen.ProcessBehavior { return o }, gen.ProcessOptionsExtra{ParentPID: n.corePID, ParentLeader: n.corePID})
+	lib.VerifAssert((err != nil) == fails, "spawn reports the owner's start-up failure")
+	if lib.VerifPick("idle", 2) == 1 {
+		lib.VerifYield()
+	}
+	lib.VerifYield()
+	cnt := 0
+	n.processes.Range(func(_, _ any) bool { cnt++; return true })
+	if fails {
+		for i, pid := range o.pids {
+			_, alive := n.processes.Load(pid)
+			lib.VerifAssert(!alive, "a child started during the failed start-up of its owner does not keep running")
+			lib.VerifAssert(o.kids[i].terms == 1, "each such child terminates exactly once")
+		}
+		lib.VerifAssert(cnt == 0, "nothing the failed owner started keeps running")
+		lib.VerifReach("failed start-up cleaned up")
+	} else {
+		lib.VerifAssert(cnt == 1+o.want, "a successful start-up keeps the owner and its children")
+		for _, m := range o.kids {
+			lib.VerifAssert(m.terms == 0, "children of a running owner are not terminated")
+		}
+		lib.VerifReach("owner and children running")
+	}
+}
